@@ -57,6 +57,10 @@ class G:
         n0 = len(self.words)
         self.text(LT[l2], depth, self.rng.randint(1, 5))
         self.s = self.s.rstrip(' \n')
+        # a control word as the last token of the insertion: the blanks it
+        # skips must not take the language switch with them
+        if self.rng.random() < 0.25:
+            self.s += self.rng.choice([' \\LaTeX', '\\dots', ' \\unkq', '\\ldots ', ' \\TeX '])
         self.s += '}'
         self.insertions.append((outer, LT[l2], [w for w, _, _ in self.words[n0:]]))
 
@@ -89,6 +93,8 @@ def gen(rng):
             env = rng.choice(['otherlanguage', 'otherlanguage*'])
             g.s += '\\begin{' + env + '}{' + l2 + '}\n'
             g.text(LT[l2], 2)
+            if rng.random() < 0.25:
+                g.s += rng.choice(['\\LaTeX', '\\dots', '\\unkq'])
             g.s += '\n\\end{' + env + '}\n'
         elif r < 0.62:
             # a short insertion at the very end of a part, then a hard switch
